@@ -309,6 +309,21 @@ func (node *Node) load(ctx context.Context) error {
 		return err
 	}
 
+	// The mempool is not persisted. Put the unconfirmed txs that are still tracked back into it so
+	// that a double spend of one of them is still recognised after a restart.
+	unconfirmed, err := node.txs.GetUnconfirmed(ctx)
+	if err != nil {
+		return err
+	}
+	for _, txid := range unconfirmed {
+		txState, err := internalStorage.FetchTxState(ctx, node.store, txid)
+		if err != nil {
+			continue
+		}
+		node.memPool.AddTransaction(ctx, txState.Tx, false)
+	}
+	node.txs.ReleaseUnconfirmed(ctx)
+
 	node.messageHandlers = handlers.NewTrustedMessageHandlers(ctx, node.config, node.state,
 		node.peers, node.blocks, &node.blockRefeeder, node.txs, node.reorgs, node.txTracker,
 		node.memPool, &node.unconfTxChannel, node.handlers)
